@@ -1,7 +1,50 @@
 import NpsVerif.Model.Heap
+import NpsVerif.Proofs.HeapReads
+/-!
+# Property C10: reads change nothing
+
+Read-only statements (`tolist`, `x[idx]` as an expression, `sum(axis=-1)`) leave the heap model's
+state (buffers and variable table) unchanged; hence inserting one anywhere in any history changes
+nothing but its own observation.  Helpers in `Proofs/HeapReads.lean`.
+-/
 namespace Props.C10
 open Model Model.Heap
-/-- sanity instance; the universally quantified theorems are added as they are proved -/
+
+/-- sanity instance -/
 theorem alias_example : run init [.new [[1, 2], []], .alias 0, .assign 1 (.rowcol (.int 0) (.int 0)) (.scalar 9), .read 0] =
     [.made true, .made true, .made true, .rows (some [[9, 2], []])] := by decide
+
+/-- a read-only statement leaves the state of the heap model unchanged -/
+theorem C10_read_pure (s : State) (st : Stmt) (h : st.isRead = true) : (step s st).1 = s :=
+  Proofs.HeapReads.step_read s st h
+
+theorem C10_read_pure_ref (s : Store) (st : Stmt) (h : st.isRead = true) : (stepS s st).1 = s :=
+  Proofs.HeapReads.stepS_read s st h
+
+/-- HEADLINE: inserting a read-only statement anywhere in any history changes nothing but its own
+observation -/
+theorem C10_read_insertion (p1 p2 : List Stmt) (r : Stmt) (h : r.isRead = true) :
+    (run init (p1 ++ r :: p2)).eraseIdx p1.length = run init (p1 ++ p2) :=
+  Proofs.HeapReads.read_insertion init p1 p2 r h
+
+/-- an array obtained by selection has one definite content: reading it before or after a write to
+its source gives the same rows (the two orders of `read b` and `a[i] = v` after `b = a[sel]`) -/
+theorem C10_selection_definite (pre : List Stmt) (a b : Nat) (idx : Index) (v : Value Int) (post : List Stmt) :
+    (run init (pre ++ [.read b, .assign a idx v, .read b] ++ post)).eraseIdx pre.length =
+      run init (pre ++ [.assign a idx v, .read b] ++ post) := by
+  have h := C10_read_insertion pre ([.assign a idx v, .read b] ++ post) (.read b) rfl
+  simpa using h
+
+/-! ## non-vacuity -/
+
+/- the two reads of the selection around a write to its source observe the same rows -/
+example : run init [.new [[0,1,2,3],[],[4,5,6],[7]], .select 0 (.rows (.slice (some 1) (some 3) none)),
+      .read 1, .assign 0 (.rows (.int 2)) (.scalar 99), .read 1] =
+    [.made true, .made true, .rows (some [[], [4,5,6]]), .made true, .rows (some [[], [4,5,6]])] := by decide
+
+/- an instance of the insertion theorem, evaluated: dropping the inserted `readIdx` observation -/
+example : (run init [.new [[1,2],[3]], .alias 0, .readIdx 1 (.rows (.int 0)),
+      .assign 1 (.rowcol (.int 0) (.int 1)) (.scalar 7), .readSum 0]).eraseIdx 2 =
+    run init [.new [[1,2],[3]], .alias 0, .assign 1 (.rowcol (.int 0) (.int 1)) (.scalar 7), .readSum 0] := by decide
+
 end Props.C10
